@@ -31,6 +31,21 @@ static ll digest_of(const V& v)
     return g.word30();
 }
 
+// hook sink that records only the events of one name (the contrib solvers run inner Lanczos solvers whose events do not belong here)
+struct OnlySink : public Spectra::verif::Sink
+{
+    const char* only;
+    explicit OnlySink(const char* name) : only(name) {}
+    void event(const char* name, const void*, const long long* vals, int n)
+    {
+        if (strcmp(name, only))
+            return;
+        Line l(name);
+        l.arr("v", vals, n);
+        out().put(l);
+    }
+};
+
 // =============================================================================================== C16: partial SVD
 template <typename MatrixType, typename Dense>
 static void svd_observe(Line& l, PartialSVDSolver<MatrixType>& svd, const Dense& A, const MatL& AL, const VecL& sref, int ncomp, ll nconv)
@@ -487,6 +502,14 @@ static void mode_lobpcg(const Desc& d)
         const int maxit = (c % 7 == 6) ? 2 : 200;
         const double tol = (c % 2) ? 1e-6 : 1e-7;
         int thr = 0;
+        {
+            Line b("LobBegin");
+            b.i("n", n).i("k", k);
+            out().put(b);
+        }
+        // hook events of the iteration (LobIter) go into the trace
+        OnlySink lobsink("LobIter");
+        Spectra::verif::sink() = &lobsink;
         try
         {
             solver.compute(maxit, tol);
@@ -495,6 +518,7 @@ static void mode_lobpcg(const Desc& d)
         {
             thr = 1;
         }
+        Spectra::verif::sink() = NULL;
         if (thr)
         {
             Line l("Lob");
@@ -573,7 +597,7 @@ static void davidson_case(const Desc& d, const MatL& AL0, const char* store, int
         out().put(b);
     }
     // hook events of the Davidson loop (JDIter) go into the trace while this case runs
-    TraceSink jdsink;
+    OnlySink jdsink("JDIter");
     struct SinkGuard
     {
         explicit SinkGuard(Spectra::verif::Sink* s) { Spectra::verif::sink() = s; }
